@@ -160,6 +160,11 @@ def shapes():
                                 yield (sc + ":" if sc else "") + "//" + ui + h + po + pa + q + f
         if sc in ("http", "https"):
             continue  # authority-less shapes of uses_netloc schemes are not canonical (rendered with '///', see F10)
+        # an empty authority in front of a path whose first segment is empty: the '//' marker is the only thing that keeps the
+        # path from being read as an authority, so it is part of the canonical form
+        for pa in ("//x", "//x/y/", "///"):
+            for q in ("", "?q=1"):
+                yield (sc + ":" if sc else "") + "//" + pa + q
         for pa in PATHS_NOAUTH:
             if not sc and ":" in pa.split("/", 1)[0]:
                 continue
